@@ -203,12 +203,23 @@ class Env:
         self.sock = S.AirTouchSocket(loop=self.loop, host="console.local", port=9004 if gen == 4 else 9005, registry=R.INSTANCE)
         self.notifications = []
 
+        self.call_log = []               # (tick, call, "called" | "timed-out") of the scripted application calls
+        self.callbacks = []              # (tick, which) of every application callback invoked by the client
+        self.in_callback = None          # hook: coroutine function run INSIDE callback number n (shutdown requested from a subscriber)
+
         async def on_conn(*, connected):
             self.notifications.append((ticks(self.loop.time()), connected))
             if self.hb_started:
                 self.hb_events.append(("conn", 1 if connected else 0, ticks(self.loop.time())))
+            await self.callback("conn:%d" % connected)
         self.sock.subscribe_on_connection_changed(on_conn)
         self.at = cls(self.loop, "at-id-1", "serial-1", name, self.sock)
+        self._subscribed = set()
+
+        async def on_system(_id):
+            self.subscribe_objects()
+            await self.callback("system")
+        self.at.subscribe(on_system)
         # heartbeat observation (C08 at API level): start/stop of the manager and the resets IT asks for
         self.hb_started = False
         self.hb_events = []
@@ -239,6 +250,26 @@ class Env:
                 await env.sock.reset_connection()
                 env.hb_events.append(("resetDone", ticks(env.loop.time())))
         hb._socket = SocketSeenByHeartbeat()
+
+    async def callback(self, which):
+        n = len(self.callbacks)
+        self.callbacks.append((ticks(self.loop.time()), which))
+        if self.in_callback is not None:
+            await self.in_callback(n, which)
+
+    def subscribe_objects(self):
+        """an application subscribes to every AC and zone once they exist"""
+        for ac in self.at.air_conditioners:
+            if id(ac) not in self._subscribed:
+                self._subscribed.add(id(ac))
+
+                async def on_ac(ac_id):
+                    await self.callback("ac:%d" % ac_id)
+                ac.subscribe(on_ac)
+                for z in ac.zones:
+                    async def on_zone(zone_id):
+                        await self.callback("zone:%d" % zone_id)
+                    z.subscribe(on_zone)
 
     def frame(self, mid, payload, to=0xB0):
         hdr = self.Hdr(to, 0x90 if mid == 0x1F else 0x80, 1, mid, len(payload))
@@ -282,6 +313,7 @@ def run(gen, scenario, moment=None, reinit=False, idle=8000):
         at = env.at
         init_task = loop.create_task(at.init())
         init_task.add_done_callback(lambda t: obs.__setitem__("init_done_at", ticks(loop.time())))
+        init_task.add_done_callback(lambda t: env.subscribe_objects())
         trigger = loop.create_future()
         if scenario.get("refuse_until"):
             loop.call_later(scenario["refuse_until"] * TICK, lambda: setattr(env.net, "mode", "accept"))
@@ -296,6 +328,14 @@ def run(gen, scenario, moment=None, reinit=False, idle=8000):
                         a["err"] = code
                 env.console_state["err_text"][ac] = text
             loop.call_later(t * TICK, change)
+        for t in scenario.get("pushes", []):
+            # the console pushes its current AC status (as consoles do when something changed)
+            def push():
+                c = env.net.conns[-1] if env.net.conns else None
+                dyn = env.console.dynamic((0x2D, None) if gen == 4 else (0xC0, 0x23), b"")
+                if c is not None and not c.conn_lost and not c.eof_sent and dyn is not None:
+                    c.peer_send(env.frame(*dyn))
+            loop.call_later(t * TICK, push)
         if scenario.get("chatter"):
             # unsolicited traffic (names, abilities, AC status, timer status, zone/group status in turn): not heartbeat responses
             keys = [k for k in env.payloads if k != (0x1F, 0x30)]
@@ -311,6 +351,9 @@ def run(gen, scenario, moment=None, reinit=False, idle=8000):
         if moment is None:
             await asyncio.sleep(scenario.get("horizon", 200) * TICK)
             obs["baseline_events"] = len(env.events)
+            obs["baseline_callbacks"] = list(env.callbacks)
+            obs["call_log"] = list(env.call_log)
+            obs["requests"] = list(env.console.requests)
             obs["init_done"] = init_task.done()
             obs["init_raised"] = (type(init_task.exception()).__name__ if init_task.done() and not init_task.cancelled() and init_task.exception() else None)
             obs["init_result"] = init_task.result() if init_task.done() and not init_task.cancelled() and not init_task.exception() else None
@@ -324,7 +367,27 @@ def run(gen, scenario, moment=None, reinit=False, idle=8000):
                 pass
             return
         kind, j, k = moment
-        if kind == "event":
+        if kind == "callback":
+            # shutdown() is requested by the application from INSIDE its j-th callback (k loop passes into it)
+            async def inside(n, which):
+                if n != j:
+                    return
+                env.in_callback = None
+                obs["callback"] = which
+                await _passes(k)
+                obs["state_before"] = getattr(getattr(at, "_state", None), "name", None)
+                obs["inner_shutdown"] = "pending"
+                try:
+                    await at.shutdown()
+                    obs["inner_shutdown"] = "returned"
+                except BaseException as e:  # noqa: BLE001
+                    obs["inner_shutdown"] = type(e).__name__
+                    raise
+                finally:
+                    if not trigger.done():
+                        trigger.set_result(None)
+            env.in_callback = inside
+        elif kind == "event":
             def hook(idx):
                 if idx == j and not trigger.done():
                     trigger.set_result(None)
@@ -337,11 +400,13 @@ def run(gen, scenario, moment=None, reinit=False, idle=8000):
             await asyncio.wait_for(trigger, (scenario.get("horizon", 200) + 50) * TICK)
         except asyncio.TimeoutError:
             obs["moment_not_reached"] = True
-        await _passes(k)
+        if kind != "callback":
+            await _passes(k)
+            obs["state_before"] = getattr(getattr(at, "_state", None), "name", None)
         obs["t_shutdown"] = ticks(loop.time())
-        obs["state_before"] = getattr(getattr(at, "_state", None), "name", None)
         try:
-            await at.shutdown()
+            # (after a shutdown from inside a callback this is a second, idempotent request from outside)
+            await asyncio.wait_for(at.shutdown(), 2000 * TICK)
             obs["shutdown_raised"] = None
         except BaseException as e:  # noqa: BLE001
             obs["shutdown_raised"] = type(e).__name__
@@ -371,6 +436,8 @@ def run(gen, scenario, moment=None, reinit=False, idle=8000):
         obs["unhandled"] = [str(c.get("message")) + ":" + type(c.get("exception")).__name__ for c in loop.unhandled]
         if reinit:
             env.net.mode = "accept"
+            if "reinit_latency" in scenario:
+                env.net.latency = scenario["reinit_latency"] * TICK
             scenario2 = dict(scenario)
             scenario2.pop("silent_from", None)
             env.scenario = scenario2
@@ -395,7 +462,10 @@ def run(gen, scenario, moment=None, reinit=False, idle=8000):
             obs["open_conns_2"] = [c.cid for c in env.net.conns if not c.closing]
         for t in asyncio.all_tasks(loop):
             if t is not me:
-                t.cancel()
+                try:
+                    t.cancel()
+                except RecursionError:        # a wait cycle among the client's tasks (recorded above as tasks left alive)
+                    pass
         for _ in range(4):
             await asyncio.sleep(0)
 
@@ -410,10 +480,19 @@ def run(gen, scenario, moment=None, reinit=False, idle=8000):
 
 async def _call(env, call):
     import pyairtouch.api as api
+    if isinstance(call, tuple) and call[0] == "timeout":
+        # the application bounds its call with a timeout (asyncio.wait_for cancels the call when it expires)
+        _, inner, limit = call
+        try:
+            await asyncio.wait_for(_call(env, inner), limit * TICK)
+        except asyncio.TimeoutError:
+            env.call_log.append((ticks(env.loop.time()), inner, "timed-out"))
+        return
     try:
         acs = list(env.at.air_conditioners)
         if not acs:
             return
+        env.call_log.append((ticks(env.loop.time()), call, "called"))
         if call == "power":
             await acs[0].set_power(api.AcPowerControl.TURN_ON)
         elif call == "toggle":
@@ -435,6 +514,12 @@ def _fault(env, what):
         return
     c = env.net.conns[-1] if env.net.conns else None
     if c is None or c.conn_lost:
+        return
+    if what == "block":            # the link is congested: the transport asks the client to pause writing
+        c.block_writes()
+        return
+    if what == "unblock":
+        c.unblock_writes()
         return
     if what == "eof":
         c.peer_eof()
@@ -470,6 +555,10 @@ SCENARIOS = {
     "pending10": dict(inst=INST, horizon=2700, faults=[(2340, "refuse"), (2345, "eof")],
                       calls=[(2350 + 3 * i, ["power", "zone", "toggle"][i % 3]) for i in range(10)]),
     "heartbeat": dict(inst=INST, horizon=2700),
+    # a console with memory that pushes its AC status when something changes, and one lost connection: application callbacks of every kind
+    "callbacks": dict(inst=INST, horizon=260, ac_state=[dict(id=0, power=1, mode=4, fan=0, setpoint=22, temp=235, err=0)], err_text={0: b""},
+                      changes=[(60, 0, 5, b"ER05 compressor"), (75, 0, 0, b""), (150, 0, 7, b"ER07 fan locked")], pushes=[61, 76, 151],
+                      faults=[(100, "eof")], calls=[(170, "zone")]),
     "dead_link": dict(inst=INST, horizon=5600, silent_from=8),
 }
 
